@@ -77,6 +77,21 @@ static void expand(void)
         if (A) ascon_hkdfa_free(&st.ha); else ascon_hkdf_free(&st.h);
         hx_stat("nontrivial", 1); hx_stat("histories", 1);
     }
+    /* long histories: the whole stream in steps of 1, 7, 31, 33 and 255 bytes (thousands of calls on one object), then refused requests of 1 and 40 bytes, then again */
+    { static const int steps[] = {1, 7, 31, 33, 255};
+      for (unsigned si = 0; si < 5; si++) {
+        union { ascon_hkdf_state_t h; ascon_hkdfa_state_t ha; } st; size_t served = 0; uint8_t o[256]; int bad = 0;
+        if (A) ascon_hkdfa_extract(&st.ha, key, 33, salt, 9); else ascon_hkdf_extract(&st.h, key, 33, salt, 9);
+        while (served < LIMIT && !bad) { size_t n = steps[si]; if (n > LIMIT - served) n = LIMIT - served;
+            int r = A ? ascon_hkdfa_expand(&st.ha, info, il, o, n) : ascon_hkdf_expand(&st.h, info, il, o, n); hx_stat("evaluations", 1);
+            if (r != 0 || memcmp(o, e + served, n)) { hx_fail(kv, "long history in steps of %d: the call at offset %zu returned %d or differs from the RFC 5869 stream", steps[si], served, r); bad = 1; }
+            served += n; }
+        for (int again = 0; again < 4 && !bad; again++) { size_t n = (again & 1) ? 40 : 1; memset(o, 0xAA, n);
+            int r = A ? ascon_hkdfa_expand(&st.ha, info, il, o, n) : ascon_hkdf_expand(&st.h, info, il, o, n);
+            if (r >= 0) { hx_fail(kv, "long history in steps of %d: request #%d of %zu bytes after the 255th block was served (result %d)", steps[si], again + 1, n, r); bad = 1; } }
+        if (A) ascon_hkdfa_free(&st.ha); else ascon_hkdf_free(&st.h);
+        hx_stat("histories", 1);
+      } }
     /* small histories: all (n1, n2, n3) in 0..70 step patterns, stream consistency */
     int m = tier ? 70 : 40;
     for (int n1 = 0; n1 <= m; n1++) for (int n2 = 0; n2 <= m; n2 += (tier ? 1 : 3)) for (int n3 = 0; n3 <= 33; n3 += 11) {
